@@ -11,7 +11,7 @@ import numpy
 PROPERTY = "C17"
 LEVEL = "exploration"
 NEED_EXT = True
-REQUIRED = ["fit.sample_size", "fit.alignment", "fit.eligibility", "predict.mean", "predict.sorted",
+REQUIRED = ["fit.members_keep_their_rows", "predict.after_refit_same_batch_object", "fit.sample_size", "fit.alignment", "fit.eligibility", "predict.mean", "predict.sorted",
             "predict.all_vs_members", "predict.after_set_params"]
 RULE = ("n in {1,2,3,5,8,10,20,50} x alpha in {0.3,0.5,1,1.5} x n_estimators x weights x n_jobs x base regressor; "
         "eligibility judged only when the union bound n*(1-1/n)^draws < 1e-9; non-trivial = n >= 3 and "
@@ -60,6 +60,8 @@ def make_rec():
 
         def fit(self, X, y, sample_weight=None):
             self.ids_ = numpy.array(X[:, 0], copy=True)
+            self.X_ref_ = X          # a base regressor may keep its training features (k-NN, kernel methods)
+            self.X_copy_ = numpy.array(X, copy=True)
             self.y_ = numpy.array(y, copy=True)
             self.w_ = None if sample_weight is None else numpy.array(sample_weight, copy=True)
             inner = {"linear": LinearRegression, "tree": lambda: DecisionTreeRegressor(max_depth=3, random_state=0),
@@ -178,6 +180,17 @@ def run_case(case, ctx):
         ctx.hit("fit.eligibility")
         ctx.check(drawn == idset or size_a == 0, K + "fit/row-never-drawn/single", "the single row was not drawn",
                   cfg=cfg)
+    # what a member was given is still what it holds when fit returns (no buffer shared between members)
+    ctx.hit("fit.members_keep_their_rows")
+    for j, e in enumerate(ests):
+        if not numpy.array_equal(numpy.asarray(e.X_ref_), e.X_copy_):
+            ctx.violation(K + "fit/member-features-overwritten", "the feature array given to member %d was overwritten "
+                          "after its fit (a regressor that keeps its training features is left with rows of another "
+                          "resample next to its own targets)" % j, cfg=cfg)
+            break
+        if any(numpy.shares_memory(numpy.asarray(e.X_ref_), numpy.asarray(o.X_ref_)) for o in ests[:j]):
+            ctx.violation(K + "fit/member-features-shared", "two members were given the same feature buffer", cfg=cfg)
+            break
     ctx.check(numpy.array_equal(X, Xk) and numpy.array_equal(y, yk), K + "fit/input-modified",
               "training data written to", cfg=cfg)
     if size_a == 0:
@@ -221,6 +234,33 @@ def run_case(case, ctx):
             lo, hi = ps[:, 0], ps[:, -1]
             if not ((lo <= p + 1e-9 * (1 + numpy.abs(p))) & (p <= hi + 1e-9 * (1 + numpy.abs(p)))).all():
                 ctx.violation(K + "predict/mean-outside-min-max", "min <= predict <= max violated", cfg=cfg)
+    # ---- history: the same instance fitted again (same number of members) and asked about the SAME array objects,
+    # then about one of them refilled in place
+    try:
+        numpy.random.seed((case["sub"] + 1) % (2 ** 31))
+        y_b = y[::-1].copy() if n > 1 else y + 1.0
+        ir.fit(X, y_b) if w is None else ir.fit(X, y_b, sample_weight=w)
+        ests2 = ir.estimators_
+        for qname in ("float64", "single-row"):
+            Q = q[qname]
+            members = numpy.column_stack([e.predict(Q) for e in ests2])
+            p, ps = ir.predict(Q), ir.predict_sorted(Q)
+            ctx.hit("predict.after_refit_same_batch_object")
+            if not numpy.allclose(p, members.mean(axis=1), rtol=1e-12, atol=1e-12) or not numpy.array_equal(
+                    numpy.asarray(ps, dtype=float), numpy.sort(members, axis=1)):
+                ctx.violation(K + "predict/not-mean/after-refit-same-batch-object", "after a refit, predict / "
+                              "predict_sorted on the array object used before the refit are not the mean / sorted "
+                              "predictions of the current members (batch %s)" % qname, cfg=cfg)
+        buf = q["float64"].copy()
+        ir.predict(buf)
+        buf[:, 0] = buf[::-1, 0] * 0.5 + 3
+        members = numpy.column_stack([e.predict(buf) for e in ests2])
+        if not numpy.allclose(ir.predict(buf), members.mean(axis=1), rtol=1e-12, atol=1e-12):
+            ctx.violation(K + "predict/not-mean/buffer-refilled-in-place", "predict on an array refilled in place is "
+                          "not the mean of the members' predictions for its new content", cfg=cfg)
+        ests = ests2
+    except Exception as e:
+        ctx.violation(K + "predict/raised-after-refit/%s" % type(e).__name__, str(e)[:150], cfg=cfg)
     # a hyper-parameter changed after fit does not change what the fitted members predict
     for m2 in (m * 2, max(1, m // 2)):
         ir.set_params(n_estimators=m2)
